@@ -20,7 +20,7 @@ func init() {
 	register(&Scenario{Name: "script-value", Prop: "C04", Doc: "one writer (Set with masks / CAS / check / delta / write time, failing writes included), 1-3 backpressured Pull consumers opened between writes, equivalence on/off; received stream == edit script derived from the writer log through the reference model",
 		Run:  func(w *World) { scriptRun(w, false) },
 		Real: []string{"pkg/resource Value", "internal/minibus"}, Stub: []string{"writer/consumer tasks", "reference model", "clock"}})
-	register(&Scenario{Name: "script-coll", Prop: "C04", Doc: "one writer (Add/Update/Delete incl. failing ones and WithWriteTime), 1-3 backpressured Pull consumers opened between writes, initial contents empty/one/many, equivalence on/off; received stream == edit script from the reference model",
+	register(&Scenario{Name: "script-coll", Prop: "C04", Doc: "one writer (Add/Update/Delete incl. failing ones and WithWriteTime), 1-3 backpressured Pull consumers (read masks; 1 in 4 with an include predicate that reads a field the mask may omit) opened between writes, initial contents empty/one/many, equivalence on/off; received stream == edit script from the reference model",
 		Run:  func(w *World) { scriptRun(w, true) },
 		Real: []string{"pkg/resource Collection", "internal/minibus"}, Stub: []string{"writer/consumer tasks", "reference model", "clock"}})
 }
@@ -87,6 +87,11 @@ func scriptRun(w *World, coll bool) {
 		case 3:
 			sc.RMaskSet, sc.RMask = true, []string{fV, fN}
 		}
+		if coll && t.Flag(1, 4) {
+			// an include predicate over (id, value): the stream is then the edit script of the filtered collection; the
+			// predicate reads a field (V) that the read mask may leave out - it must be evaluated on the stored item
+			sc.Include = &inclTable{arith: true}
+		}
 		subs = append(subs, &scriptSub{subscriber: &subscriber{name: fmt.Sprintf("s%d", i), cfg: sc, ctx: ctx, cancel: cancel}, openAt: t.Choose(nops + 1)})
 	}
 	masks := [][]string{{fV}, {fV, fN}, {fS}, {}, {"nope"}, {fN}}
@@ -101,7 +106,12 @@ func scriptRun(w *World, coll bool) {
 			// expected seed
 			if !s.cfg.UpdatesOnly {
 				if coll {
-					sids := m.sortedIDs()
+					var sids []string
+					for _, id := range m.sortedIDs() {
+						if s.cfg.Include == nil || s.cfg.Include.eval(id, false, m.items[id].V) {
+							sids = append(sids, id)
+						}
+					}
 					for k, id := range sids {
 						lw := lastWrite[id]
 						s.expect = append(s.expect, expEv{sev: sev{ID: id, Type: types.ChangeType_ADD, HasNew: true, New: m.items[id].project(s.cfg.RMask, !s.cfg.RMaskSet), Seed: true, LastSeed: k == len(sids)-1},
@@ -231,6 +241,20 @@ func scriptRun(w *World, coll bool) {
 					}
 				default:
 					e.Type, e.HasNew, e.New = types.ChangeType_ADD, true, proj(h.Res.Msg)
+				}
+				if inc := s.cfg.Include; inc != nil {
+					// the filtered collection's edit: decided on the stored (unprojected) versions
+					oi := hadOld && inc.eval(o.ID, false, old.V)
+					ni := o.Kind != opDelete && inc.eval(o.ID, false, h.Res.Msg.V)
+					switch {
+					case oi && ni:
+					case ni:
+						e.Type, e.HasOld, e.Old, e.Optional = types.ChangeType_ADD, false, mm{}, false
+					case oi:
+						e.Type, e.HasOld, e.Old, e.HasNew, e.New, e.Optional = types.ChangeType_REMOVE, true, proj(old), false, mm{}, false
+					default:
+						continue
+					}
 				}
 				s.expect = append(s.expect, e)
 			}
